@@ -131,6 +131,18 @@ class F:
     def octets(self, n):
         rng = self.rng
         r = rng.random()
+        if r < 0.08 and n >= 2:
+            # valid UTF-8 text (what RdataStyle.txt_is_utf8 prints as characters): controls, C1, quotes, BMP, astral
+            out = b""
+            while True:
+                c = chr(rng.choice((rng.randrange(0x20), 0x22, 0x5C, 0x7F, rng.randrange(0x80, 0xA0), 0x85, rng.randrange(0xA0, 0x100), rng.randrange(0x100, 0x800),
+                                    rng.randrange(0x800, 0xD800), 0x2028, 0xFEFF, 0xFFFE, rng.randrange(0xE000, 0x10000), rng.randrange(0x10000, 0x110000),
+                                    rng.randrange(0x20, 0x7F), rng.randrange(0x20, 0x7F)))).encode("utf-8")
+                if len(out) + len(c) > n:
+                    break
+                out += c
+            self.tags.add("utf8text")
+            return out + b"a" * (n - len(out))
         if r < 0.5:
             return bytes(GN.octet(rng) for _ in range(n))
         if r < 0.6:
@@ -161,11 +173,11 @@ class F:
         rng = self.rng
         r = rng.random()
         if self.relative_ok and r < 0.3:
-            labels = GN.rel_labels(rng, 254 - RN.wire_len(self.origin), self.plain, rng.choice(("short", "short", "mid", "empty")))
+            labels = GN.rel_labels(rng, 254 - RN.wire_len(self.origin), self.plain, rng.choice(("short", "short", "mid", "empty", "token")))
             self.tags.add("relname")
         elif self.origin is not None and r < 0.5:
             # absolute and under the origin
-            labels = GN.rel_labels(rng, 254 - RN.wire_len(self.origin), self.plain, "short") + tuple(self.origin)
+            labels = GN.rel_labels(rng, 254 - RN.wire_len(self.origin), self.plain, rng.choice(("short", "short", "token"))) + tuple(self.origin)
         elif r < 0.56:
             labels = (b"",)
             self.tags.add("rootname")
@@ -173,7 +185,7 @@ class F:
             labels = GN.rel_labels(rng, 254, self.plain, "full") + (b"",)
             self.tags.add("maxname")
         else:
-            labels = GN.rel_labels(rng, 254, self.plain, rng.choice(("short", "short", "mid"))) + (b"",)
+            labels = GN.rel_labels(rng, 254, self.plain, rng.choice(("short", "short", "mid", "token"))) + (b"",)
         if any(0x41 <= c <= 0x5A for l in labels for c in l):
             self.tags.add("uppername")
         return NameRef(labels, comp, down)
